@@ -211,6 +211,59 @@ def check(run):
         pend.append((e1, case))
         req.append('parse ' + enc(text))           # the model's rendering of the original text is the export
         pend.append((e1, dict(case, compared='model rendering of the original text')))
+    # ---- 4. which blank cells range assembly lists (the '#EMPTY' entries of the export) vs XL.Blanks.closure ----------------
+    # a 5x4 grid sheet G: some constants, some blanks listed beforehand, formulas on sheet F over random rectangles of G
+    import schedula as sh_
+    breq, bpend = [], []
+    for k in range(60 if quick else 3000):
+        rows_, cols_ = 5, 4
+        cid = lambda r, c: (r - 1) * cols_ + c
+        cells_ = [(r, c) for r in range(1, rows_ + 1) for c in range(1, cols_ + 1)]
+        consts = set(rnd.sample(cells_, rnd.randint(2, 9)))
+        pre = set(rnd.sample([x for x in cells_ if x not in consts], rnd.randint(0, 3)))
+        rects = []
+        for _ in range(rnd.randint(1, 7)):
+            r1 = rnd.randint(1, rows_); c1 = rnd.randint(1, cols_)
+            h, w = rnd.choice([(1, 1), (1, 1), (2, 1), (3, 1), (1, 2), (1, 3), (2, 2), (4, 1), (1, 4), (3, 2)])
+            rects.append((r1, min(rows_, r1 + h - 1), c1, min(cols_, c1 + w - 1)))
+        GS, FS = "'[g.xlsx]G'!", "'[g.xlsx]F'!"
+        col = lambda c: 'ABCD'[c - 1]
+        items = [(GS + '%s%d' % (col(c), r), rnd.choice([1, 2.5, 'x', True])) for (r, c) in sorted(consts)]
+        items += [(GS + '%s%d' % (col(c), r), '#EMPTY') for (r, c) in sorted(pre)]
+        for i, (r1, r2, c1, c2) in enumerate(rects):
+            ref = '%s%d' % (col(c1), r1) if (r1, c1) == (r2, c2) else '%s%d:%s%d' % (col(c1), r1, col(c2), r2)
+            items.append((FS + 'A%d' % (i + 1), '=%s(%s%s)' % (rnd.choice(['SUM', 'COUNT', 'MAX']), GS, ref)))
+        listed_by_order = []
+        for rep in range(2):
+            order = items[:]
+            if rep:
+                rnd.shuffle(order)
+            try:
+                mm = ExcelModel().from_dict(dict(order))
+                listed = sorted(cid(*divmod_rc) for divmod_rc in
+                                [(int(''.join(ch for ch in kk.split('!')[1] if ch.isdigit())), 'ABCD'.index(kk.split('!')[1][0]) + 1)
+                                 for kk, dv in mm.dsp.default_values.items()
+                                 if isinstance(kk, str) and kk.upper().startswith(GS.upper()) and ':' not in kk.split('!')[1]
+                                 and np.asarray(dv['value'], object).shape == (1, 1) and np.asarray(dv['value'], object)[0, 0] is sh_.EMPTY])
+            except Exception as ex:
+                run.violation('from_dict raised %s: %s' % (type(ex).__name__, str(ex)[:80]), {'workbook': dict(order), 'stream': 'blank-listing'})
+                listed = None
+            listed_by_order.append(listed)
+        case = {'workbook': dict(items), 'stream': 'blank-listing', 'listed': listed_by_order[0]}
+        run.count(1, json.dumps(dict(items), sort_keys=True, default=str), len(rects) >= 2, 'blank-listing/ranges=%d' % len(rects))
+        if None in listed_by_order:
+            continue
+        if listed_by_order[0] != listed_by_order[1]:
+            run.violation('the blank cells listed as nodes depend on the insertion order: %s vs %s' % (listed_by_order[0], listed_by_order[1]), case)
+        rs = [[cid(r, c) for r in range(r1, r2 + 1) for c in range(c1, c2 + 1) if (r, c) not in consts] for (r1, r2, c1, c2) in rects]
+        L0 = sorted(cid(*x) for x in pre)
+        breq.append('blanks 1 %d %s %s' % (len(L0), ' '.join(map(str, L0)), ' '.join('%d %s' % (len(r_), ' '.join(map(str, r_))) for r_ in rs)))
+        bpend.append((listed_by_order[0], case))
+    for ans, (listed, case) in zip(model([' '.join(q.split()) for q in breq]), bpend):
+        ml = sorted(int(x) for x in ans.split()) if ans != '-' else []
+        if ml != listed:
+            run.disagree('blank cells listed as nodes: implementation %s, closure of the model %s (cell ids row-major on a 5x4 grid)' % (listed, ml), case)
+    run.extra['blank_listing_requests'] = len(breq)
     # regression input of the repaired defect export-blank-listing (fixed entry in known_findings.json)
     try:
         wd = json.load(open(os.path.join(common.VERIF, 'known_witnesses', 'c09_blank_listing.json')))
